@@ -22,7 +22,7 @@ from . import AnalysisError
 
 
 class Node(object):
-    __slots__ = ('id', 'kind', 'ast', 'succ', 'pred', 'note', 'cfg')
+    __slots__ = ('id', 'kind', 'ast', 'succ', 'pred', 'note', 'cfg', 'loops')
 
     def __init__(self, nid, kind, node=None, note=None, cfg=None):
         self.id = nid
@@ -127,6 +127,7 @@ class CFG(object):
         self.func = func
         self.name = name or (func.fq if func is not None else '<block>')
         self.nodes = []
+        self._cur_loops = ()
         self._copy_env = None
         self._pending_value = None
         self.entry = self._new('entry')
@@ -140,6 +141,7 @@ class CFG(object):
     # -- construction helpers ---------------------------------------------
     def _new(self, kind, node=None, note=None):
         new = Node(len(self.nodes), kind, node, note, self)
+        new.loops = getattr(self, '_cur_loops', ())
         self.nodes.append(new)
         return new
 
@@ -161,6 +163,8 @@ class CFG(object):
         key = frame.phase
         if key not in frame.pads:
             pad = self._new('join', note='exc-pad')
+            pad.loops = tuple(f.head for f in frames[:idx + 1]
+                              if isinstance(f, _Loop))
             frame.pads[key] = pad
             self._jump([(pad, 'exc')], 'raise', frames[:idx + 1])
         return frame.pads[key]
@@ -274,8 +278,17 @@ class CFG(object):
 
     # -- statements --------------------------------------------------------
     def _block(self, stmts, stubs, frames):
-        for stmt in stmts:
-            stubs = self._stmt(stmt, stubs, frames)
+        # nodes without syntax of their own (landing pads, the return
+        # marker of a helper spliced in at a condition) remember the loops
+        # they were built in: lexical containment cannot place them
+        prev = self._cur_loops
+        self._cur_loops = tuple(f.head for f in frames
+                                if isinstance(f, _Loop))
+        try:
+            for stmt in stmts:
+                stubs = self._stmt(stmt, stubs, frames)
+        finally:
+            self._cur_loops = prev
         return stubs
 
     def _simple(self, kind, stmt, stubs, frames):
